@@ -638,7 +638,7 @@ func run(c *runner.Ctx) {
 				cars[1] = carrier.StructRM
 			} else if c.Index()%4 == 0 {
 				// (a quarter of the values also right after a call that shadowed the built-in names for itself)
-				cars = append(cars, carrier.StructTagLocalFn, carrier.VarLocalFn, carrier.MapLocalFn, carrier.StructAfterAbandoned)
+				cars = append(cars, carrier.StructTagLocalFn, carrier.VarLocalFn, carrier.MapLocalFn, carrier.StructAfterAbandoned, carrier.VarAfterRefused)
 				if v.Kind() == reflect.String && !strings.ContainsAny(v.String(), "&=?#") {
 					cars = append(cars, carrier.UrlLocalFn)
 				}
